@@ -66,3 +66,27 @@ reg('C19', 'witnesses', 'rule_w_unchecked')
 reg('C19', 'witnesses', 'rule_w_mut')
 # ---- C18 (census of unsafe impls)
 reg('C18', 'unsafety', 'rule_no_unsafe_sync')
+
+# ---- C01
+reg('C01', 'text', 'rule_text')
+reg('C01', 'text', 'rule_opts_lit')
+reg('C01', 'witnesses', 'rule_w_opts')
+# ---- C04
+reg('C04', 'streams', 'rule_ident')
+# ---- C06
+reg('C06', 'streams', 'rule_idx')
+reg('C06', 'streams', 'rule_advance')
+# ---- C08
+reg('C08', 'streams', 'rule_root')
+reg('C08', 'streams', 'rule_eager')
+reg('C08', 'text', 'rule_text')
+# ---- C09
+reg('C09', 'streams', 'rule_idx')
+reg('C09', 'streams', 'rule_pair')
+# ---- C11
+reg('C11', 'streams', 'rule_pair')
+reg('C11', 'streams', 'rule_eager')
+reg('C11', 'streams', 'rule_idx')
+reg('C11', 'codec', 'rule_alphabet')
+# ---- C17 (chunk.unwrap sites)
+reg('C17', 'text', 'rule_unwrap_text')
